@@ -12,6 +12,19 @@ NOTE = ("Trusted: TLC and the CommunityModules JSON reader; the projection of ne
         "evidence file on every run.")
 
 CLAIMED = {
+    "C06": ("Every recorded add_subcircuit / fill_blackbox / strip_blackboxes call (random parents with and without flops, "
+            "library and random children incl. nested blackboxes and feed-through pins, every connection choice, repeated "
+            "instantiation, fill after add_blackbox) is judged by TLC (JudgeComp): structural clauses plus functional "
+            "substitution by Kleene truth tables; the API machine MCApi (shared with C07) model-checks add_subcircuit / "
+            "fill_blackbox histories.", "6 C06"),
+    "C16": ("MCRemoveUnloaded: the as-built worklist equals the declarative result (exactly the dead gates/constants, and dead "
+            "inputs on request) and is idempotent on every DAG shape <= 5 nodes x output markings x flags x EVERY pop order; "
+            "recorded remove_unloaded calls (applied twice) on all typed DAG5 shapes and random circuits with grafted dead logic "
+            "and flops, several hash seeds, are judged by TLC against DeadSet and against the as-built model.", "6 C16"),
+    "C19": ("CGHeap/MCHeap: on a heap of separately allocated graph/registry parts, correct calls keep NoSharing, ArgsUnchanged "
+            "and edit isolation (an aliasing/mutating call is the expected counterexample); every public function and read-only "
+            "method (enumerated at run time) is called with valid and invalid arguments, argument snapshots around each call and "
+            "around scripted edits of result and argument are judged by TLC (JudgeFrame).", "6 C19"),
     "C07": ("CGApi models the construction API as a state machine (one operator per call, composed at the code's failure points). "
             "MCApi: every history of depth 4 from the empty circuit over a small universe, MCApiStep: one rich call from every "
             "legal circuit over the universe (inductive step) - TypeOK, LegalWiring, BBConsistent, RejectedAddsNoEdge hold (TLC "
